@@ -267,6 +267,11 @@ class OutgoingRIB(Cache):
             # Also remove from _new_nlri since we're withdrawing it
             new_nlri.pop(route_index, None)
 
+        # a re-announcement requested by a flush for this route must not follow its withdraw
+        # (and the first batch of a session is sent without its withdraws)
+        if self._refresh_routes:
+            self._refresh_routes = [r for r in self._refresh_routes if r.index() != route_index]
+
         # Store withdraw in separate structure - no deepcopy needed!
         # Store (NLRI, AttributeCollection) tuple, action is determined by which dict it's in
         from exabgp.bgp.message.update.attribute.collection import AttributeCollection as AttrsClass
